@@ -18,6 +18,7 @@ class CsrDriver:
         self.unmapped = [a for a in range(1 << aw) if a not in mapped]
         self.gen = self._stream()
         self.transactions = 0
+        self.rmw_pairs = 0
 
     def idle(self):
         return {"addr": self.rng.randrange(1 << self.aw), "r_stb": 0, "w_stb": 0,
@@ -39,6 +40,8 @@ class CsrDriver:
             r = self.regs[i]
             kinds = [k for k in ("r", "w", "rw") if all(ch in r["access"] for ch in k)] or ["r", "w"]
             kind = rng.choice(kinds)
+            if kind == "rw" and rng.random() < 0.3:
+                kind = "rmw"        # byte-wise read-modify-write: read chunk k, write chunk k, read chunk k+1, ...
             n = r["end"] - r["start"]
             stop = n if (rng.random() >= self.p_abort or n == 1) else rng.randint(1, n - 1)
             value = self.data_hook(i, r) if self.data_hook else rng.getrandbits(max(1, n * self.dw))
@@ -48,6 +51,14 @@ class CsrDriver:
             for k in range(stop):
                 while rng.random() < 0.1:
                     yield self.idle()
+                if kind == "rmw":
+                    yield {"addr": r["start"] + k, "r_stb": 1, "w_stb": 0, "w_data": rng.getrandbits(self.dw)}
+                    while rng.random() < 0.15:
+                        yield self.idle()
+                    yield {"addr": r["start"] + k, "r_stb": 0, "w_stb": 1,
+                           "w_data": (value >> (k * self.dw)) & ((1 << self.dw) - 1)}
+                    self.rmw_pairs += 1
+                    continue
                 yield {"addr": r["start"] + k, "r_stb": int("r" in kind), "w_stb": int("w" in kind),
                        "w_data": (value >> (k * self.dw)) & ((1 << self.dw) - 1)}
 
